@@ -604,6 +604,16 @@ class Executor:
             'slt': lambda a,b: a<b, 'sle': lambda a,b: a<=b, 'sgt': lambda a,b: a>b, 'sge': lambda a,b: a>=b}
 
     @staticmethod
+    def from_fp(f):
+        """bit pattern of an FP term; a NaN result gets x86's default NaN (z3 leaves the pattern of NaN unspecified)"""
+        w = f.sort().ebits() + f.sort().sbits()
+        nan = bv(0xFFC00000, 32) if w == 32 else bv(0xFFF8000000000000, 64)
+        isnan = z3.simplify(z3.fpIsNaN(f))
+        if z3.is_true(isnan): return nan
+        if z3.is_false(isnan): return simp(z3.fpToIEEEBV(f))
+        return z3.If(isnan, nan, z3.fpToIEEEBV(f))
+
+    @staticmethod
     def to_fp(v, ty):
         return z3.fpBVToFP(v, z3.Float32() if ty == 'float' else z3.Float64())
 
@@ -716,7 +726,7 @@ class Executor:
             a, b = split_top(r2)
             fa, fb = self.to_fp(self.val(st, ty, a), ty), self.to_fp(self.val(st, ty, b), ty)
             f = {'fadd': z3.fpAdd, 'fsub': z3.fpSub, 'fmul': z3.fpMul, 'fdiv': z3.fpDiv}[op](z3.RNE(), fa, fb)
-            env[dest] = simp(z3.fpToIEEEBV(f)); return
+            env[dest] = self.from_fp(f); return
         if op == 'select':
             parts = split_top(rest)
             c = self.val(st, 'i1', parts[0].split()[-1])
